@@ -24,6 +24,12 @@ def norm(data, ids):
     s = data.decode() if isinstance(data, bytes) else str(data)
     for u in ids:
         s = s.replace(u, "ID")
+    # the order of the keys of a JSON object carries no meaning (the per-equation worker threads fill the frame in any order)
+    try:
+        if s.lstrip().startswith(("{", "[")):
+            return json.dumps(json.loads(s), sort_keys=True)
+    except ValueError:
+        pass
     return s
 
 def settings_of(v):
